@@ -134,7 +134,7 @@ const LEAVES: &[(char, &[&str])] = &[
     (
         'V',
         &[
-            "a", "&v", "&&v&i", "a&i", "v2345678901234567890123456789012", "%m()", "%m()1", "a%m()", "%sysfunc(f())", "%sysfunc(f())9",
+            "a", "_a", "_", "&v", "&&v&i", "a&i", "v2345678901234567890123456789012", "%m()", "%m()1", "a%m()", "%sysfunc(f())", "%sysfunc(f())9",
             "%m()&v", "%m&v", "%m%n()", "%m&v.x", "%m", "%m%n",
         ],
     ),
@@ -378,6 +378,12 @@ pub fn rare_contexts() -> Vec<(char, String, char)> {
         ('S', "%do;~{} x %end~;", 'S'),
         ('S', "%if &a %then %do;~{} set y %end;", 'S'),
         ('S', "%macro q; %do;~{} x %end; %mend;", 'S'),
+        // ... with a %do block inside a call argument / a string in the body: its %end must pop the
+        // level its own %do pushed, not the one of the enclosing block
+        ('S', "%macro q; id %m(a%do;~{} %end;) x %mend;", 'A'),
+        ('S', "%macro q; y=\"a%do; {} %end;\" x %mend;", 'Q'),
+        ('S', "%do; id %m(a%do;~{} %end;) x %end;", 'A'),
+        ('S', "%do; y=\"a%do; {} %end;\" x %end;", 'Q'),
     ]
     .iter()
     .map(|(a, b, c)| (*a, (*b).to_string(), *c))
@@ -814,16 +820,20 @@ fn gap(filler: &str) -> Piece {
 }
 
 /// argument value shapes; `top_comma` = the shape contains a top-level comma
-fn value_shapes() -> Vec<(Vec<Piece>, bool)> {
-    let mut v = base_value_shapes();
-    v.extend(split_group_shapes());
-    v
+fn value_shapes() -> &'static Vec<(Vec<Piece>, bool)> {
+    static SHAPES: std::sync::OnceLock<Vec<(Vec<Piece>, bool)>> = std::sync::OnceLock::new();
+    SHAPES.get_or_init(|| {
+        let mut v = base_value_shapes();
+        v.extend(split_group_shapes());
+        v
+    })
 }
 
 /// Number of shapes that take part in the full cross product of argument lists; the shapes after
 /// them ("rare") are placed in every argument position once, next to plain values only.
 fn n_base_shapes() -> usize {
-    base_value_shapes().len()
+    static N: std::sync::OnceLock<usize> = std::sync::OnceLock::new();
+    *N.get_or_init(|| base_value_shapes().len())
 }
 
 /// A parenthesis group whose `(` and `)` fall into different text sections of the scanner (a
@@ -1015,6 +1025,8 @@ fn build_call(head: &str, model: ArgModel, args: &[(bool, usize)], filler: &str,
                 "k{}", "&n", "&n.", "k{}&n", "k{}&n.", "&&n&i", "&n.k{}", "%n&n", "%a%b", "%n&n.k{}", "k{}%n",
                 // a name produced by a call with its own parentheses, '=' glued to its ')'
                 "%upcase(k{})", "%n(k{})", "%upcase(%n(a,b))", "k{}%n(1)", "%qscan(%n(a b),1)", "%str(k{})",
+                // the other name-start class: an underscore (alone, leading, before a variable)
+                "_k{}", "_", "_&n", "__k{}_",
             ];
             let name = names[(i + *s + args.len()) % names.len()].replace("{}", &i.to_string());
             v.push(other(&name));
@@ -1037,7 +1049,8 @@ fn build_def(args: &[(bool, usize)], filler: &str) -> Vec<Piece> {
             v.push(delim(",", T::COMMA));
             v.push(gap(filler));
         }
-        v.push(other(&format!("p{i}")));
+        // parameter names: a letter or an underscore first
+        v.push(other(&if (i + *s) % 3 == 1 { format!("_p{i}") } else { format!("p{i}") }));
         if *named {
             v.push(gap(filler));
             v.push(delim("=", T::ASSIGN));
